@@ -235,6 +235,27 @@ def judgeJson (o : JsonObs) : String :=
       | some ls => if ls.length != o.lines then s!"fail:driver:{ls.length} LF-terminated pieces, harness counted {o.lines}"
                    else if ls.any (·.isEmpty) then "fail:malformed:empty line" else "ok"
 
+/-! ## (round 6) phout aggregators that share the standard output -/
+
+structure StdoutObs where
+  reports : Nat     -- Report calls made to all aggregators together
+  lines : Nat       -- LF-terminated pieces of the standard output
+  err : String      -- "nil" or the first error a Run returned
+  order : Bool
+  dup : Nat
+  bad : Nat         -- pieces that are not a line somebody reported (torn, spliced, unterminated)
+  isOpen : Bool     -- the standard output still accepted a write after the last aggregator had returned
+
+/-- every report of every aggregator is one whole line of the shared output, which none of them closed -/
+def judgeStdout (o : StdoutObs) : String :=
+  if o.bad != 0 then s!"fail:malformed:{o.bad} lines of the standard output do not decode (torn or spliced lines)"
+  else if o.dup != 0 then s!"fail:dup:{o.dup} samples written more than once"
+  else if !o.order then "fail:order:per-reporter order not preserved"
+  else if o.lines != o.reports then s!"fail:count:{o.lines} lines on the standard output for {o.reports} reports"
+  else if o.err != "nil" then s!"fail:err:Run returned {o.err}"
+  else if !o.isOpen then "fail:close:an aggregator closed the standard output it shares with the rest of the process"
+  else "ok"
+
 /-! ## the process -/
 
 structure ProcObs where
